@@ -95,6 +95,7 @@ const (
 	VSignedRelink    = "signed-relink"    // signed, wrong Prev (fails only adjacently)
 	VSignedFork      = "signed-fork"      // signed, correct Prev, other nonce (equivocation)
 	VTimewarp        = "timewarp"         // signed, correct Prev, time 1ns before its predecessor's time
+	VVerifyPanic     = "verify-panic"     // signed, valid encoding and fields, but the type-level Verify panics on it
 )
 
 // Variant derives an adversarial header from the canonical header at height h.
@@ -118,6 +119,8 @@ func (c *Chain) Variant(kind string, h uint64, salt uint64) *Header {
 	case VSignedRelink:
 		v.Prev = bytes.Repeat([]byte{0xEE}, 32)
 	case VSignedFork:
+	case VVerifyPanic:
+		v.Nonce = VerifyPanicNonce
 	case VTimewarp:
 		if p := c.At(h - 1); p != nil {
 			v.T = p.T - 1
